@@ -1,6 +1,7 @@
 import Driver.Core
 import Driver.GenStmt
 import IGVerif.Spec.Shape
+import Driver.GenSup
 namespace Drv
 open Lean IGVerif
 
@@ -115,7 +116,7 @@ def genC11Cases (tier : String) (seed : Nat) : Array Case := Id.run do
     let (s, r1) := (match b % 3 with
       | 0 => genC01 { suffixes := false, maxDepth := 2, maxComps := 3, fillers := false }
       | 1 => genSupC02 2
-      | _ => genNested { depth := 1, pairs := true, maxSimple := 2 }) rng
+      | _ => genNestedSup { depth := 1, pairs := true, maxSimple := 2 }) rng
     rng := r1
     if !(supported s) then continue
     -- converse: the well-formed base statement is accepted by both conversions
